@@ -9,6 +9,7 @@ CONSTANTS
     Level = "quick"
     FixAssoc = TRUE
     FixTplLast = TRUE
+    FixRollback = TRUE
     Known = {}
 INVARIANTS
     CrashAtomic
